@@ -15,11 +15,22 @@
   exactly `(len(b1) + o2, OK, the moved message)`; `pipeline_nth_message`: the same for message `i` of a list of
   messages laid out one after the other. Together with the body table ("offset = first byte after the body") this
   is the property's "parsing resumes exactly there and the next message parses as it would alone".
-  NOT proved: that message `i` of a pipeline equals that message parsed in a buffer that ENDS with it (needs the flags
-  under which the body is not "the rest of the buffer"; that is C03's extension theorem, composed by the oracle only).
+  Each message as it would parse ALONE (`Sipsp.Proofs.PipelineAlone`): "framing-definite" (`framing_definite_iff`) =
+  the no-more-data flag is not set and (skip-body ∨ Content-Length required ∨ a Content-Length header was parsed) —
+  exactly the modes in which the body is not "the rest of the buffer"; `msg_alone_then_followed`: a text that parses
+  alone to (its size, OK, obj) in such a mode returns exactly the same triple when ANY bytes follow it — no field
+  differs; `alone_needs_framing`: without that condition a non-empty continuation moves the offset (the property's own
+  exemption); `pipeline_each_message_as_alone`, `pipeline_each_message_after_reset`, `pipeline_each_message_nomore`:
+  in a buffer holding texts one after the other, parsing at the start of text `i` (from Init, or from the previous
+  object after Reset, any history) returns (start of text i+1, OK, the stand-alone object of text i moved by its start)
+  — only text `i` must be a complete framing-definite message, the others are arbitrary; `parse_all_pipeline`,
+  `parse_all_pipeline_get`, `parse_all_pipeline_nomore`: the caller's loop "Reset, parse at the returned offset, until
+  the buffer is exhausted" returns exactly the list of the moved stand-alone objects and ends at the end of the buffer.
+  NOT proved: pipelines containing a text that is complete only in no-more-data mode (truncated body).
 -/
 import Sipsp.Model.Msg
 import Sipsp.Proofs.ShiftMsg
+import Sipsp.Proofs.PipelineAlone
 
 namespace Sipsp.C06
 open Sipsp
@@ -121,5 +132,49 @@ theorem pipeline_second_message_ok : type_of% @_root_.pipeline_second_message_ok
     offset where message `i` starts (from an Init object) gives the result of parsing the rest of the pipeline
     (messages `i, i+1, …` in a buffer of their own, at offset 0) moved by the total size of the messages before it -/
 theorem pipeline_nth_message : type_of% @_root_.pipeline_nth_message := @_root_.pipeline_nth_message
+
+/-! ### each message of a pipeline parses as it would alone (proved in `Sipsp.Proofs.PipelineAlone`) -/
+
+/-- **(1) a message that parses alone parses identically when followed by anything**: if the text `x` parsed alone
+    (from any Init object) gives OK at `x.size` with object `obj`, in a framing-definite mode, then for ANY bytes `rest`
+    the call on `x ++ rest` returns exactly the same offset, verdict and object. No bookkeeping field differs. -/
+theorem msg_alone_then_followed : type_of% @Sipsp.msg_alone_then_followed := @Sipsp.msg_alone_then_followed
+
+/-- the framing condition is necessary: if the message parsed alone is NOT framing-definite because its body is "the
+    rest of the buffer" (no Content-Length, neither flag), then any non-empty continuation changes the result -/
+theorem alone_needs_framing : type_of% @Sipsp.pa_alone_needs_framing := @Sipsp.pa_alone_needs_framing
+
+theorem framing_definite_iff : type_of% @Sipsp.paFramed_iff := @Sipsp.paFramed_iff
+
+/-- **(2) message `i` of a pipeline parses as it would alone**: `l` is a list of texts laid one after the other in one
+    buffer (`smCat l`). If text `i` parsed alone (from an Init object) gives OK at its end with object `obj`, in a
+    framing-definite mode, then parsing the big buffer at the offset where text `i` starts (from the same Init
+    object) returns OK, the offset of the first byte of text `i+1`, and the stand-alone object with every field moved
+    by the start offset (`shMsg`). Nothing is assumed about the other texts. -/
+theorem pipeline_each_message_as_alone : type_of% @Sipsp.pipeline_each_message_as_alone := @Sipsp.pipeline_each_message_as_alone
+
+/-- … and the same with the caller's actual object: any object with any history (`ScReach`), Reset before the call.
+    The stand-alone parse is the one from an Init object with the capacities of that object. -/
+theorem pipeline_each_message_after_reset : type_of% @Sipsp.pipeline_each_message_after_reset := @Sipsp.pipeline_each_message_after_reset
+
+/-- **(2) in the no-more-data mode**: message `i` is complete and framing-definite under `flags` (no-more-data not
+    set); the pipelined call may use `flags'` = the same flags with the no-more-data flag set (e.g. the whole datagram
+    is in the buffer) and still returns the moved stand-alone object. -/
+theorem pipeline_each_message_nomore : type_of% @Sipsp.pipeline_each_message_as_alone_nomore := @Sipsp.pipeline_each_message_as_alone_nomore
+
+/-- **(3) the caller's loop over a buffer of pipelined messages**: the buffer holds the texts `l` one after the
+    other, each of which is a complete message in a framing-definite mode when parsed alone (from an Init object with
+    the capacities of the caller's object). Starting at offset 0 with an object `m` of any history, the loop "Reset,
+    ParseSIPMsg, continue at the returned offset" returns exactly the stand-alone objects, message `i` moved by the
+    total size of the messages before it, and stops with OK at the end of the buffer. -/
+theorem parse_all_pipeline : type_of% @Sipsp.parseAll_pipeline := @Sipsp.parseAll_pipeline
+
+/-- … read per message: the loop returns as many objects as there are messages, and object `i` is the stand-alone object
+    of message `i` moved by the offset where message `i` starts -/
+theorem parse_all_pipeline_get : type_of% @Sipsp.parseAll_pipeline_get := @Sipsp.parseAll_pipeline_get
+
+/-- **(3) in the no-more-data mode**: the messages are complete and framing-definite under `flags` (no-more-data not
+    set); the loop may run with `flags'` = the same flags plus the no-more-data flag and returns the same list -/
+theorem parse_all_pipeline_nomore : type_of% @Sipsp.parseAll_pipeline_nomore := @Sipsp.parseAll_pipeline_nomore
 
 end Sipsp.C06
